@@ -56,6 +56,50 @@ def unit(item):
     return p
 
 
+FOREIGN = ("tsp", "cvrp", "cvrptw", "sdvrp", "op:dist", "svrp")
+
+
+def foreign_env(spec, inst, delta):
+    """an environment object configured (generator size) for another instance size than `inst` - how instances of a
+    loaded data set meet an environment that was built for its default size"""
+    n = len(inst["locs"])
+    return spec.cls(generator_params=spec.gen_params({"locs": [0] * max(2, n + delta)}), **spec.env_kwargs)
+
+
+def unit_foreign(item):
+    """Hand-supplied / loaded instances whose size differs from the size the environment's generator was configured for:
+    these environments take every size from the instance itself (the repository's own meta-learning test relies on it
+    for TSP), so mask-confined episodes must be feasible there too."""
+    _, key, tier, seed = item
+    spec = SPECS[key]
+    p = Partial()
+    insts = spec.instances("quick", seed)
+    insts = [insts[i] for i in E.pick_indices(len(insts), 40 if tier == "quick" else 200)]
+    for iid, inst in insts:
+        for delta in (-1, 2):
+            env = foreign_env(spec, inst, delta)
+            tree = E.explore(env, spec.td(inst), keep_nodes=False, max_states=100_000)
+            p.add(states=tree.states, transitions=tree.transitions, leaves=len(tree.leaves), trees=1, distinct_count=len(tree.leaves))
+            if tree.capped:
+                p.add(caps_hit=1)
+            for h in tree.leaves:
+                v = judge(spec, inst, h)
+                p.add(evaluations=1)
+                if not v.may:
+                    p.violation(
+                        sig(PID, spec, "infeasible_solution", f"foreign_size_env|{v.hard[0].split(':')[0]}"),
+                        dict(kind="foreign", spec=spec.key, instance_id=iid, instance=inst, actions=list(h), delta=delta),
+                        f"{spec.key} instance {iid} in an environment configured for {len(inst['locs']) + delta} nodes: mask-admitted episode {list(h)} is infeasible: {v.hard}",
+                    )
+                    break
+            p.outcome(f"{spec.key}|foreign|{delta}")
+    return p
+
+
+def dispatch(item):
+    return unit_foreign(item) if item[0] == "foreign" else unit(item)
+
+
 def main(tier):
     rep = Report(PID, tier, rule="one case = one complete mask-admitted action sequence of one instance (all sequences of every alphabet instance are enumerated); distinct = distinct (environment, instance, sequence); all are non-trivial (each is a full episode judged by the oracle)")
     rep.assumptions = [
@@ -67,7 +111,11 @@ def main(tier):
     alph = "thorough" if tier == "quick" else "deep"
     items = units(alph, seed_from_env())
     rep.extra["alphabet"] = alph
-    rep.merge_all(pmap(unit, items))
+    import os
+
+    only = os.environ.get("VERIF_ONLY")
+    foreign = [("foreign", k, tier, seed_from_env()) for k in FOREIGN if not only or only in k]
+    rep.merge_all(pmap(dispatch, items + foreign))
     rep.extra["environments"] = sorted({i[0] for i in items})
     return rep.finish()
 
@@ -75,7 +123,7 @@ def main(tier):
 def replay(rec):
     spec = SPECS[rec["spec"]]
     inst = rec["instance"]
-    env = spec.env(inst)
+    env = spec.env(inst) if rec.get("kind") != "foreign" else foreign_env(spec, inst, rec["delta"])
     td, masks, dones = E.run_solo(env, spec.td(inst), rec["actions"])
     admitted = all(masks[t][a] for t, a in enumerate(rec["actions"]))
     v = judge(spec, inst, rec["actions"])
